@@ -32,6 +32,12 @@ def no_keys(x):
 
 
 def gen(rng, tier):
+    # member names that look like the pointer's non-standard key tokens NEXT TO the member those tokens would name
+    for doc in ({"a": 1, "~a": [2], "#a": {"v": 3}}, {"": 0, "~": [4], "#": [5]}, {"x": {"k": None, "~k": {"k": 1, "#k": [0]}, "#k": "s"}},
+                [{"0": 1, "#0": [2], "~0": 3}, [7, 8]], {"b": {"~b": {"#b": {"b": 1}}}, "~b": 2}):
+        for segs in (["desc", ["sel", "wild"]], [["sel", "wild"]], [["sel", "wild"], ["sel", "wild"]],
+                     [["list", ["name", "~a"]]], [["list", ["name", "#a"], ["name", "a"]]], [["list", ["filter", ["op", "!=", ["self"], ["lit", None]]]]]):
+            yield {"query": {"first": {"fake": False, "segs": segs}, "rest": []}, "doc": doc, "ctx": Q.CTX, "seed": 3, "std": True, "implicit_root": False}
     n = 5000 if tier == "thorough" else 500
     k = 0
     while k < n:
